@@ -302,7 +302,14 @@ def tensordot(ex, state, a, b, axes, line):
     for x, y in zip(ax_a, ax_b):
         ex.ctx.oblige(state, 'tensordot-shape', line, a.shape[x] == b.shape[y], 'shape mismatch for sum (axis %d of a, axis %d of b)' % (x, y))
     shape = [s for k, s in enumerate(a.shape) if k not in ax_a] + [s for k, s in enumerate(b.shape) if k not in ax_b]
-    return new_arr(state, shape, z3.simplify(z3.Or(a.cplx, b.cplx)))
+    res = new_arr(state, shape, z3.simplify(z3.Or(a.cplx, b.cplx)))
+    # L-iso (product): (k x r) with orthonormal rows times a right-orthonormal core (r, m, n, r') is right-orthonormal;
+    # a left-orthonormal core (r, m, n, r') times (r' x k) with orthonormal columns is left-orthonormal
+    if len(a.shape) == 2 and len(b.shape) == 4 and ax_a == [1] and ax_b == [0]:
+        res.flags['rorth'] = z3.And(a.flags['isorows'], b.flags['rorth'])
+    if len(a.shape) == 4 and len(b.shape) == 2 and ax_a == [3] and ax_b == [0]:
+        res.flags['lorth'] = z3.And(a.flags['lorth'], b.flags['isocols'])
+    return res
 
 
 def dot(ex, state, a, b, line):
